@@ -404,6 +404,7 @@ class Raises:
             if prop is not None:
                 self._call_h2(fi, e, prop, frames, out)
             else:
+                self._missing_attr(fi, e, frames, out)
                 for a in self.r.type_of(e.value, fi):
                     if a[0] == 'inst':
                         c = self.m.classes.get(a[1])
@@ -488,6 +489,73 @@ class Raises:
                                                                    c.id)))
         return ok
 
+    def _class_defines(self, cq, attr, depth=0):
+        """True / False / None (unknown: the chain leaves h2)."""
+        c = self.m.classes.get(cq)
+        if c is None or depth > 8:
+            return None
+        if attr in c.attrs or attr in c.methods or attr in c.setters:
+            return True
+        for n in ast.walk(c.node):
+            if isinstance(n, ast.Attribute) and n.attr == attr and \
+                    isinstance(n.ctx, ast.Store) and \
+                    isinstance(n.value, ast.Name) and n.value.id == 'self':
+                return True
+        unknown = False
+        for b in c.bases:
+            bq = None
+            for q2, c2 in self.m.classes.items():
+                if c2.name == b:
+                    bq = q2
+            if bq is None:
+                if b in ('Exception', 'object', 'ValueError', 'KeyError'):
+                    if hasattr(Exception, attr):
+                        return True
+                    continue
+                unknown = True
+                continue
+            r = self._class_defines(bq, attr, depth + 1)
+            if r:
+                return True
+            if r is None:
+                unknown = True
+        return None if unknown else False
+
+    def _missing_attr(self, fi, node, frames, out):
+        """x.attr where x may be an instance of an h2 class that does not
+        define attr anywhere in its hierarchy (typically an exception object
+        caught as a base class and used as the subclass): AttributeError."""
+        atoms = self.r.type_of(node.value, fi)
+        if isinstance(node.value, ast.Name):
+            # a name bound by an enclosing `except X as name`: X, not the
+            # union over all handlers that reuse the name
+            p = getattr(node, '_parent', None)
+            while p is not None and not isinstance(
+                    p, (ast.FunctionDef, ast.AsyncFunctionDef)):
+                if isinstance(p, ast.ExceptHandler) and \
+                        p.name == node.value.id and p.type is not None:
+                    tn = p.type.elts if isinstance(p.type, ast.Tuple) \
+                        else [p.type]
+                    atoms = [('exc', x.id if isinstance(x, ast.Name)
+                              else getattr(x, 'attr', '?')) for x in tn]
+                    break
+                p = getattr(p, '_parent', None)
+        for a in atoms:
+            if a[0] == 'exc':
+                cq = [q for q, c in self.m.classes.items()
+                      if c.name == a[1]]
+                if len(cq) != 1:
+                    continue
+                a = ('inst', cq[0])
+            if a[0] != 'inst' or not self.m.exc_is_subclass(
+                    a[1].split('.')[-1], 'Exception'):
+                continue
+            if self._class_defines(a[1], node.attr) is False:
+                self._op(fi, node, 'attribute .%s of %s' % (
+                    node.attr, a[1].split('.')[-1]), 'AttributeError',
+                    frames, out)
+                return
+
     def _partial(self, fi, node, kind, frames, out):
         """Subscript load / delete as a partial operation."""
         base_t = self.r.type_of(node.value, fi)
@@ -570,9 +638,17 @@ class Raises:
             for a in call.args:
                 self._consume(fi, a, call, frames, out)
         if name == 'int':
-            # int(text, base) or int(non-int): ValueError
+            # int(text, base), or int(x) of something that is not known to
+            # be a number: ValueError
             if len(call.args) >= 2:
                 self._op(fi, call, 'int()', 'ValueError', frames, out)
+            elif len(call.args) == 1:
+                ts = self.r.type_of(call.args[0], fi)
+                numeric = bool(ts) and all(
+                    a in (('prim', 'bool'), ('prim', 'int'),
+                          ('prim', 'float')) or a[0] == 'enum' for a in ts)
+                if not numeric:
+                    self._op(fi, call, 'int()', 'ValueError', frames, out)
             return
         exc = BUILTIN_RAISES.get(name)
         if exc:
